@@ -36,5 +36,5 @@ def check(run):
                 "error raised by root middleware before the mounts, after them, and by a handler inside the mounted apps. Non-trivial = scenarios whose selected handler belongs to a mounted app.")
     run.extra["driver_summary"] = summary
     run.extra["violations_by_check"] = dict(collections.Counter(v["check"] for v in run.violations))
-    run.assumptions = ["lower-case paths only (the statement does not say whether prefix containment folds case)",
+    run.assumptions = ["prefixes with capitals are requested in the same spelling only (the statement does not say whether prefix containment folds case)",
                        "errors are raised by root-level middleware before / after the mounts or by the first middleware of the mounted apps"]
